@@ -59,7 +59,7 @@ PROPS = {
                 bounded_scenarios=[("c13_pipeline_shapes", "14 pipelines: 2..5 stages in every composition shape (iterator, left-nested |, pipeline|pipeline, Pipeline|Exec) through the real crate and sh; join/capture against a first stage that closes its streams and keeps working")]),
     "C14": dict(units=["builder", "spawn", "pstate"], tagged_units=["spawn", "pstate"], kani=[], level="proof",
                 bounded_scenarios=[("c14_partial_failure", "123 failing pipelines: n = 2..4 `cat` stages, every failing position, stdin null/pipe/data, popen/join/capture/communicate/stream_stdout/stream_stdin, and for capture/communicate also started commands that first write 300000 bytes to their stderr; promptness, no child left, descriptor count")]),
-    "C16": dict(units=["builder"], bounded_scenarios=[("c16_builder_model", "1633 command descriptions: every sequence of up to 3 of 9 builder edits (env/env_remove/env_clear/env_extend/arg), each also through a clone taken half-way, run through the real crate and /bin/sh against a plain model; a shell command string, an argument and an environment value that are not valid UTF-8 arrive byte for byte")],
+    "C16": dict(units=["builder", "spawn"], tagged_units=["spawn"], bounded_scenarios=[("c16_builder_model", "1633 command descriptions: every sequence of up to 3 of 9 builder edits (env/env_remove/env_clear/env_extend/arg), each also through a clone taken half-way, run through the real crate and /bin/sh against a plain model; a shell command string, an argument and an environment value that are not valid UTF-8 arrive byte for byte")],
                 kani=["r_exec_stdin_refuses", "r_exec_stdout_refuses", "r_exec_stderr_refuses", "r_exec_terminators_refuse_data", "w_exec_stdin_accepts"], level="proof"),
     "C08": dict(units=["spawn", "builder"], kani=["w_pipe", "w_set_inheritable", "w_make_standard_stream"], level="proof",
                 bounded_scenarios=[("c08_fd_audit", "2 x 49 descriptor tables read back from real children (/proc/$$/fd): single commands under all 8 inherit/pipe combinations alone and with three other Popens alive, 4 merge variants, a child spawned while three exchanges (communicate_start, Exec::communicate, Pipeline::communicate) are set up and unfinished, every stage of 2..4-command pipelines run by join / capture / stream_stdout, 100 children spawned concurrently from four threads; all of it a second time in a parent whose descriptors 0 and 2 are closed; a child may hold 0, 1, 2 and nothing else")]),
